@@ -182,6 +182,7 @@ def check_dynamic(prop, tier, seed):
     jobs = dynamic_jobs(tier, seed, prop)
     apa = None
     apa_future = None
+    tlaps_future, tlaps_res = None, None
     if prop in ("C03", "C04"):
         # design-level obligations over SYMBOLIC scenarios (Apalache), run beside the TLC jobs
         import concurrent.futures as cf
@@ -189,12 +190,20 @@ def check_dynamic(prop, tier, seed):
         which = None if prop == "C03" else ["IndInv /\\ Next => Monotone"]
         pool_ = cf.ThreadPoolExecutor(max_workers=1)
         apa_future = pool_.submit(apalache.run, which)
+        from harness import tlaps
+        tlaps_future = cf.ThreadPoolExecutor(max_workers=1).submit(tlaps.run, tier == "thorough")
     results = dynamic.run_jobs(jobs, procs=12 if tier == "thorough" else 8)
     if apa_future is not None:
         apa = apa_future.result()
         for (n_, ok_, sec_, tail_) in apa:
             if not ok_:
                 v.machinery.append("Apalache obligation '%s' on NASimSym.tla not discharged: %s" % (n_, tail_[-300:]))
+    if tlaps_future is not None:
+        tlaps_res = tlaps_future.result()
+        if not tlaps_res["proved"]:
+            v.machinery.append("TLAPS: spec/NASimProof.tla not proved: %s" % tlaps_res["tail"][-300:])
+        if tlaps_res.get("broken_variant_refused") is False:
+            v.machinery.append("TLAPS: the broken variant of NASimProof.tla was proved (vacuous proof?)")
     states = transitions = events = edges = 0
     classes = set()
     seen_gates = set()
@@ -256,6 +265,8 @@ def check_dynamic(prop, tier, seed):
     if apa is not None:
         cov["apalache_symbolic_scenario_obligations"] = [dict(obligation=n_, discharged=ok_, seconds=sec_)
                                                         for (n_, ok_, sec_, _) in apa]
+    if tlaps_res is not None:
+        cov["tlaps_unbounded_inductive_invariant"] = {k: tlaps_res[k] for k in tlaps_res if k != "tail"}
     common.write_evidence(prop, tier, seed, "model_checking", cov, time.time() - t0, len(v.violations))
     return v.finish()
 
